@@ -508,6 +508,10 @@ pub fn build(full_name: &str, level: u8) -> Option<Scenario> {
                     Action::Settle0(1),
                 ];
             }
+            if n.contains("-dropped") {
+                // a proposal's append to follower 3 was lost; nothing else is proposed
+                s.prefix.extend(vec![Action::Propose(1, 0), Action::Settle0(1), Action::Drop(1, 3)]);
+            }
             if n.contains("-probe") {
                 // follower 3 was reported unreachable: its progress starts in Probe state
                 s.prefix.extend(vec![Action::Unreachable(1, 3), Action::Settle0(1)]);
@@ -620,6 +624,13 @@ pub fn build(full_name: &str, level: u8) -> Option<Scenario> {
                         c.props = 3;
                         c.drops = 0;
                     }
+                }
+                if n.contains("-dropped") {
+                    c.props = 0;
+                    c.beats = 2;
+                    c.drops = 0;
+                    c.reorders = 0;
+                    c.dups = 0;
                 }
                 if n.contains("-probe") {
                     // one proposal to commit (its commit broadcast is an empty append), one
